@@ -86,16 +86,22 @@ CHECKS: dict[str, dict[str, str]] = {
              'startup deadlock with worker_limit',
         ref='DESIGN.md 4/C17'),
     'C09': dict(
-        technique='TLA+ model of the daemon lifecycle (Daemons.tla) checked exhaustively with TLC; recorded executions of the real operator '
-                  'with scripted daemons checked by TLC against a TLA+ property automaton (DaemonMonitor.tla)',
+        technique='TLA+ models of the daemon lifecycle (Daemons.tla; the implementation-shaped Spawning.tla) checked exhaustively with TLC; recorded '
+                  'executions of the real operator with scripted daemons validated by TLC step by step against Spawning.tla (Trace_Spawning.tla) '
+                  'and against a TLA+ property automaton (DaemonMonitor.tla); configurations and histories drawn by TLC (-simulate on Sim_Spawning) '
+                  'replayed into the real operator',
         text='TLC explores every interleaving of label toggles, deletion and daemon reactions for one object/one daemon (3 reaction kinds); '
              'the clauses that hold are invariants, the known families F5 and F18 are shown by witness configurations. Random histories '
              '(toggles, edits, graceful deletion, forced finalizer removal, operator exit; 1-2 daemons + a timer; obey / needs-cancel / '
              'swallows-cancel / exits-on-its-own; backoff x timeout) run on the real operator in virtual time; TLC evaluates the C09 clauses '
              'on every recorded execution and attributes violations to the families. The watchdog turns an event-loop stall into a violation '
-             '(F1, fixed in b6c0de9).',
-        note='coroutine daemons only (sync daemons in threads are not simulated); pause/resume by peering is covered by C13; flag observation '
-             'requires the scripted daemon to wait on `stopped`',
+             '(F1, fixed in b6c0de9). Spawning.tla has one action per code section of process_spawning_cause / stop_daemons (stages by the age '
+             'of the stop flag, instant-exit windows) / _runner / the exiting daemon_killer / apply (patch | sleep | touch); TLC checks its '
+             'invariants, the bounded completion of a deletion for 96 timed configurations, negative and witness configurations, and explains '
+             'every recorded execution as one of its behaviours (a spawn, flag, cancellation, finalizer write, sleep or touch too early or too '
+             'late is a rejection). Synchronous daemons and timers run as virtual threads.',
+        note='threads advance in lock-step with the virtual loop (no preemption inside a thread); the pausing branch of the daemon killer is '
+             'judged by clauses of Trace_Peering, not by Spawning.tla; flag observation requires the scripted daemon to wait on `stopped`',
         ref='DESIGN.md 4/C09'),
     'C10': dict(
         technique='explicit TLA+ transcription of the timer loop (Timers.tla) checked exhaustively with TLC; start/end instants of the real '
@@ -151,8 +157,10 @@ CHECKS: dict[str, dict[str, str]] = {
                   'kopf.operator() in the world simulator validated by TLC against the specification (Trace_Handling.tla)',
         text='[+ histories and handler outcomes drawn by TLC (-simulate on Sim_Handling) replayed into the real operator] [+ OnceMonitor.tla: the statement as a property automaton over runs with a parent handler, two scripted sub-handlers, a sibling, mid-cycle edits (resume superseded by update) and graceful restarts] recorded progress governs invocation: InvokeGoverned (record in the processed view: not finished, retry = recorded attempts, delay elapsed), CloseExactlyWhenDone, AtMostOnce with all doors closed; the negative configuration shows a kill re-opens the door' ' -- checked by TLC on Handling.tla for every interleaving of the bounded configurations, and on every state of '
              'the behaviour that explains each recorded trace of the real operator (seeded random scenarios of profile progress + errors; every '
-             'PATCH is compared with the specification\'s server object field by field, virtual time is bound by urgency).',
-        note='one object, one operator at a time; handlers are coroutines with scripted outcomes; sub-handlers, handler timeouts and '
+             'PATCH is compared with the specification\'s server object field by field, virtual time is bound by urgency). Daemons and timers '
+             'hold the finalizer too: the daemon executions of C09 are validated against Spawning.tla (Trace_Spawning: every finalizer write must '
+             'be the one the specification makes, invariant FinalizerHeld in every state) and by the release clause of DaemonMonitor.tla.',
+        note='one object, one operator at a time; handlers are coroutines or (every fifth history) plain functions run in virtual threads, with scripted outcomes; sub-handlers, handler timeouts and '
              'on.event results are not yet in the model; known findings are excused only through the family predicates of Handling.tla',
         ref='DESIGN.md 4/C02'),
     'C03': dict(
@@ -160,8 +168,10 @@ CHECKS: dict[str, dict[str, str]] = {
                   'kopf.operator() in the world simulator validated by TLC against the specification (Trace_Handling.tla)',
         text='[+ TLC-drawn histories (Sim_Handling); histories of the consistency and finalizer profiles; user transformations carried forward] TerminalConverged on configurations without doors / with kills, stops, restarts, re-listings; Termination under weak fairness; witness configurations for the known families F8, F20, F21, F22; histories run to quiescence: final state Converged (or excused by a known family) and no PATCH in the tail window' ' -- checked by TLC on Handling.tla for every interleaving of the bounded configurations, and on every state of '
              'the behaviour that explains each recorded trace of the real operator (seeded random scenarios of profile converge; every '
-             'PATCH is compared with the specification\'s server object field by field, virtual time is bound by urgency).',
-        note='one object, one operator at a time; handlers are coroutines with scripted outcomes; sub-handlers, handler timeouts and '
+             'PATCH is compared with the specification\'s server object field by field, virtual time is bound by urgency). Daemons and timers '
+             'hold the finalizer too: the daemon executions of C09 are validated against Spawning.tla (Trace_Spawning: every finalizer write must '
+             'be the one the specification makes, invariant FinalizerHeld in every state) and by the release clause of DaemonMonitor.tla.',
+        note='one object, one operator at a time; handlers are coroutines or (every fifth history) plain functions run in virtual threads, with scripted outcomes; sub-handlers, handler timeouts and '
              'on.event results are not yet in the model; known findings are excused only through the family predicates of Handling.tla',
         ref='DESIGN.md 4/C03'),
     'C06': dict(
@@ -169,8 +179,10 @@ CHECKS: dict[str, dict[str, str]] = {
                   'kopf.operator() in the world simulator validated by TLC against the specification (Trace_Handling.tla)',
         text='NeverEarly (the finalizer is withdrawn from a deleting object only after every mandatory matching deletion handler has finished), ForeignUntouched, FollowsMatching, with foreign finalizer edits, toggles, deletions and 422 conflicts' ' -- checked by TLC on Handling.tla for every interleaving of the bounded configurations, and on every state of '
              'the behaviour that explains each recorded trace of the real operator (seeded random scenarios of profile finalizer; every '
-             'PATCH is compared with the specification\'s server object field by field, virtual time is bound by urgency).',
-        note='one object, one operator at a time; handlers are coroutines with scripted outcomes; sub-handlers, handler timeouts and '
+             'PATCH is compared with the specification\'s server object field by field, virtual time is bound by urgency). Daemons and timers '
+             'hold the finalizer too: the daemon executions of C09 are validated against Spawning.tla (Trace_Spawning: every finalizer write must '
+             'be the one the specification makes, invariant FinalizerHeld in every state) and by the release clause of DaemonMonitor.tla.',
+        note='one object, one operator at a time; handlers are coroutines or (every fifth history) plain functions run in virtual threads, with scripted outcomes; sub-handlers, handler timeouts and '
              'on.event results are not yet in the model; known findings are excused only through the family predicates of Handling.tla',
         ref='DESIGN.md 4/C06'),
     'C07': dict(
@@ -178,8 +190,10 @@ CHECKS: dict[str, dict[str, str]] = {
                   'kopf.operator() in the world simulator validated by TLC against the specification (Trace_Handling.tla)',
         text="[+ FreshMonitor.tla: the statement as a property automaton over runs with a raw-event handler whose result is patched on every event and a watch stream late by L seconds; raw handlers must see every line at once] FreshOrTimedOut (a change handler runs on a view at least as new as the worker's own last patch, or after the consistency timeout since it); worker locals expected_version/consistency_time are bound from the q.proc.begin hook; echo delays are produced by holding watch lines" ' -- checked by TLC on Handling.tla for every interleaving of the bounded configurations, and on every state of '
              'the behaviour that explains each recorded trace of the real operator (seeded random scenarios of profile consistency; every '
-             'PATCH is compared with the specification\'s server object field by field, virtual time is bound by urgency).',
-        note='one object, one operator at a time; handlers are coroutines with scripted outcomes; sub-handlers, handler timeouts and '
+             'PATCH is compared with the specification\'s server object field by field, virtual time is bound by urgency). Daemons and timers '
+             'hold the finalizer too: the daemon executions of C09 are validated against Spawning.tla (Trace_Spawning: every finalizer write must '
+             'be the one the specification makes, invariant FinalizerHeld in every state) and by the release clause of DaemonMonitor.tla.',
+        note='one object, one operator at a time; handlers are coroutines or (every fifth history) plain functions run in virtual threads, with scripted outcomes; sub-handlers, handler timeouts and '
              'on.event results are not yet in the model; known findings are excused only through the family predicates of Handling.tla',
         ref='DESIGN.md 4/C07'),
     'C11': dict(
@@ -187,8 +201,10 @@ CHECKS: dict[str, dict[str, str]] = {
                   'kopf.operator() in the world simulator validated by TLC against the specification (Trace_Handling.tla)',
         text='[+ Execution.tla: reference of one invocation - timeout / retries before the attempt, look-ahead for temporary and arbitrary errors, error modes, backoff - laws checked by TLC over 143 360 input combinations; the real execute_handler_once on configurations x states (incl. runtimes beyond 24 h) x behaviours for an activity and a change handler judged by TLC] retry numbering, delays (a handler is never invoked before its recorded delay), permanence, ignored mode and the retries limit for change handlers incl. across kills/restarts (RetriesBounded, InvokeGoverned); records after every PATCH are compared field by field' ' -- checked by TLC on Handling.tla for every interleaving of the bounded configurations, and on every state of '
              'the behaviour that explains each recorded trace of the real operator (seeded random scenarios of profile errors; every '
-             'PATCH is compared with the specification\'s server object field by field, virtual time is bound by urgency).',
-        note='one object, one operator at a time; handlers are coroutines with scripted outcomes; sub-handlers, handler timeouts and '
+             'PATCH is compared with the specification\'s server object field by field, virtual time is bound by urgency). Daemons and timers '
+             'hold the finalizer too: the daemon executions of C09 are validated against Spawning.tla (Trace_Spawning: every finalizer write must '
+             'be the one the specification makes, invariant FinalizerHeld in every state) and by the release clause of DaemonMonitor.tla.',
+        note='one object, one operator at a time; handlers are coroutines or (every fifth history) plain functions run in virtual threads, with scripted outcomes; sub-handlers, handler timeouts and '
              'on.event results are not yet in the model; known findings are excused only through the family predicates of Handling.tla',
         ref='DESIGN.md 4/C11'),
     'C14': dict(
@@ -196,8 +212,10 @@ CHECKS: dict[str, dict[str, str]] = {
                   'kopf.operator() in the world simulator validated by TLC against the specification (Trace_Handling.tla)',
         text='ResumeOnce per process (modulo the stale-view door), resume handlers mixed into update/delete causes, re-listings (410) and restarts' ' -- checked by TLC on Handling.tla for every interleaving of the bounded configurations, and on every state of '
              'the behaviour that explains each recorded trace of the real operator (seeded random scenarios of profile resume; every '
-             'PATCH is compared with the specification\'s server object field by field, virtual time is bound by urgency).',
-        note='one object, one operator at a time; handlers are coroutines with scripted outcomes; sub-handlers, handler timeouts and '
+             'PATCH is compared with the specification\'s server object field by field, virtual time is bound by urgency). Daemons and timers '
+             'hold the finalizer too: the daemon executions of C09 are validated against Spawning.tla (Trace_Spawning: every finalizer write must '
+             'be the one the specification makes, invariant FinalizerHeld in every state) and by the release clause of DaemonMonitor.tla.',
+        note='one object, one operator at a time; handlers are coroutines or (every fifth history) plain functions run in virtual threads, with scripted outcomes; sub-handlers, handler timeouts and '
              'on.event results are not yet in the model; known findings are excused only through the family predicates of Handling.tla',
         ref='DESIGN.md 4/C14'),
     'C01': dict(
